@@ -89,7 +89,10 @@ func isCountedPhi(p *ssa.Phi) bool {
 // R-LIMIT-DIVISION: a file number is derived from a position only by the codec
 // functions (which account for where the record starts).
 func ruleLimitDivision(r *Report, rule string) {
-	allowed := map[string]bool{"index.bucketPosToFileNum": true, "mhprimary.primaryPosToFileNum": true}
+	// the decoders are allowed too: pos-codec checks any division they contain
+	// against (position − k) / limit (file-of-record-start)
+	allowed := map[string]bool{"index.bucketPosToFileNum": true, "mhprimary.primaryPosToFileNum": true,
+		"index.localizeBucketPos": true, "mhprimary.localizePrimaryPos": true}
 	// limit values: the size-limit fields, and (transitively) parameters that
 	// receive a limit value at some call site in the module
 	limitParams := map[*ssa.Parameter]bool{}
